@@ -285,6 +285,13 @@ func Drive(o DriverOpts) int {
 
 	onlyStr, onlyIdx := -1, -1
 	replayRace := false
+	if o.Replay == "" {
+		// witnesses of earlier runs of this property are superseded by this run
+		old, _ := filepath.Glob(filepath.Join(o.VerifDir, "replays", p.ID+"-*.json"))
+		for _, f := range old {
+			os.Remove(f)
+		}
+	}
 	if o.Replay != "" {
 		b, err := os.ReadFile(o.Replay)
 		if err != nil {
